@@ -164,6 +164,14 @@ def REGISTRY_MTM():
     return REGISTRY["Broker.marking_to_market"]
 
 
+def trade_fields(heap, trade):
+    """fields of a Trade given as a record or as a row of a keyed list of trades"""
+    if isinstance(trade, RowRef):
+        cols = heap[trade.m.oid]["cols"]
+        return {n: f(trade.k) for n, f in cols.items()}
+    return heap[trade.oid]
+
+
 # =========================================================================== transact
 def broker_witness(c):
     I = c.I
@@ -197,13 +205,13 @@ class Transact(Contract):
         return {"self": b, "trade": t}
 
     def tfields(self, c, old=True):
-        return c.heap(old)[c.trade.oid]
+        return trade_fields(c.heap(old), c.trade)
 
     def requires(self, c):
         I = c.I
         out = broker_requires(I, c.self)
         v = SymBrokerView(I, c.self)
-        t = I.heap[c.trade.oid]
+        t = trade_fields(I.heap, c.trade)
         k = t["contract"].t
         dq = t["quantity"].v
         acqp = z3.If(dq > 0, v.ask(k), v.bid(k))
@@ -221,7 +229,7 @@ class Transact(Contract):
     def splits(self, c):
         I = c.I
         v = SymBrokerView(I, c.self)
-        t = I.heap[c.trade.oid]
+        t = trade_fields(I.heap, c.trade)
         k, dq = t["contract"].t, t["quantity"].v
         q0 = v.qty(k)
         q1 = q0 + dq
@@ -286,7 +294,7 @@ class Transact(Contract):
     def witness(self, c):
         I = c.I
         v = SymBrokerView(I, c.self)
-        t = I.heap[c.trade.oid]
+        t = trade_fields(I.heap, c.trade)
         k = t["contract"].t
         return {"q0": v.qty(k), "dq": t["quantity"].v, "bid": v.bid(k), "ask": v.ask(k), "mult": mult(k), "mr": mr(k),
                 "cr": cr(k), "margin0": v.margin(k), "has_last": v.has_last(k), "last0": v.last(k),
@@ -578,6 +586,12 @@ class AccruedInterest(Contract):
     def result(self, c):
         return Fl(self.amount(c)[0])
 
+    def hints(self, c):
+        if c.accrue is not True:
+            return []
+        vo = SymBrokerView(c.I, c.self, c.old)
+        return [SumDelta("equity_plus_interest", EquityFam(c.self), [vo.cash], self.amount(c)[0], old=c.old, new=c.new)]
+
     def ensures(self, c):
         I = c.I
         vo, vn = SymBrokerView(I, c.self, c.old), SymBrokerView(I, c.self, c.new)
@@ -620,3 +634,103 @@ class AccruedInterest(Contract):
         if l0 is not None:
             w["last_accrual"] = l0.v
         return w
+
+
+# =========================================================================== holdings_weights / context (C05)
+class _Valuation(Contract):
+    """shared: raises / modifies / post-state are those of net_liquidation_value(raise_if_broke=True)"""
+
+    def nlv(self):
+        from . import REGISTRY
+        return REGISTRY["Broker.net_liquidation_value"]
+
+    def bctx(self, c):
+        from pyvc.contract import Ctx
+        b = Ctx(c.I, {"self": c.self, "raise_if_broke": True})
+        b.old, b.new, b.callsite = c.old, c.new, c.callsite
+        return b
+
+    def pre_state(self, I):
+        return {"self": mk_broker(I)}
+
+    def requires(self, c):
+        return broker_requires(c.I, c.self)
+
+    def raises(self, c):
+        return self.nlv().raises(self.bctx(c))
+
+    def modifies(self, c):
+        return self.nlv().modifies(self.bctx(c))
+
+
+def weight_of(vn, E, k):
+    """C05: reported weight = position x liquidation price x multiplier / NLV"""
+    return hv_value(vn, k, "notional") / E
+
+
+@register
+class HoldingsWeights(_Valuation):
+    relpath, qual = REL, "Broker.holdings_weights"
+    props = ("C05", "C03")
+
+    def result(self, c):
+        I = c.I
+        vn = SymBrokerView(I, c.self, I.snapshot())
+        E = ghost.gsum(I, EquityFam(c.self), c.old)
+        return I.new_map(lambda k: Fl(weight_of(vn, E, k)), lambda k: vn.in_qty(k), None, "dict")
+
+    def ensures(self, c):
+        I = c.I
+        r = c.result
+        if not (isinstance(r, Obj) and r.kind == "map"):
+            return [Cl("returns_map", FALSE)]
+        vn = SymBrokerView(I, c.self, c.new)
+        E = ghost.gsum(I, EquityFam(c.self), c.old)
+        return [PW("ratio", lambda k: z3.And(c.dom(r, k) == vn.in_qty(k), z3.Implies(vn.in_qty(k), z3.And(
+            z3.Not(c.m(r, k).nan), c.m(r, k).v == weight_of(vn, E, k)))))] + self.nlv().post_state(self.bctx(c))
+
+
+def context_fields(I, vn, E, heap=None):
+    """the snapshot Broker.context() reports, as key->value functions of the (marked) account state"""
+    return {
+        "weights": (lambda k: Fl(weight_of(vn, E, k)), lambda k: vn.in_qty(k)),
+        "values": (lambda k: Fl(hv_value(vn, k, "notional")), lambda k: vn.in_qty(k)),
+        "nr_contracts": (lambda k: Fl(vn.qty(k)), lambda k: vn.in_qty(k)),
+        "margins": (lambda k: Fl(vn.margin(k)), lambda k: vn.in_margins(k)),
+    }
+
+
+@register
+class BrokerContext(_Valuation):
+    """C05/C07: the snapshot holds the values the account actually has at that moment"""
+    relpath, qual = REL, "Broker.context"
+    props = ("C05", "C07", "C09", "C13")
+
+    def result(self, c):
+        I = c.I
+        vn = SymBrokerView(I, c.self, I.snapshot())
+        E = ghost.gsum(I, EquityFam(c.self), c.old)
+        f = {"nlv": Fl(E)}
+        for n, (get, dom) in context_fields(I, vn, E).items():
+            f[n] = I.new_map(get, dom, "float" if n in ("values",) else None, "dict")
+        return I.new_rec("Context", **f)
+
+    def ensures(self, c):
+        I = c.I
+        r = c.result
+        if not (isinstance(r, Obj) and r.kind == "rec" and r.cls == "Context"):
+            return [Cl("returns_context", FALSE)]
+        vn = SymBrokerView(I, c.self, c.new)
+        E = ghost.gsum(I, EquityFam(c.self), c.old)
+        h = c.heap()
+        rf = h[r.oid]
+        out = [Cl("nlv", z3.And(z3.Not(lift_fl(rf["nlv"]).nan), lift_fl(rf["nlv"]).v == E, E > 0))]
+        for n, (get, dom) in context_fields(I, vn, E).items():
+            m = rf.get(n)
+            if not (isinstance(m, Obj) and m.kind == "map"):
+                out.append(Cl("field[%s]" % n, FALSE))
+                continue
+            out.append(PW("snapshot[%s]" % n, (lambda m, get, dom: lambda k: z3.And(
+                h[m.oid]["dom"](k) == dom(k),
+                z3.Implies(dom(k), z3.And(z3.Not(h[m.oid]["get"](k).nan), h[m.oid]["get"](k).v == get(k).v))))(m, get, dom)))
+        return out + self.nlv().post_state(self.bctx(c))
